@@ -102,7 +102,7 @@ def gen_case(rng, k, tight=True):
     pos = [[rng.randint(-8, 8) / 4 for _ in range(3)] for _ in range(n)]
     c = {"natoms": n, "symbols": [s for s, _ in sp], "masses": [m * rng.choice([1.0, 1.0, 2.5]) for _, m in sp], "T": T, "delta": delta,
          "power": power, "forces": forces, "positions": pos, "mode": "scripted",
-         "late_masses": rng.choice([None, None, "before_power", "after_power"])}
+         "late_masses": rng.choice([None, None, "before_power", "after_power", "foreign"])}
     return c
 
 
@@ -221,6 +221,10 @@ Definition chk (n : nat) (acc : list (nat * nat)) (zpos : list nat) (consumed : 
   | None => false
   end.
 """
+
+
+def fl_(x):
+    return float.fromhex(x) if isinstance(x, str) else float(x)
 
 
 def branch(f, d, T):
@@ -414,6 +418,9 @@ def real_runs(res, rng, quick):
                 if rng.random() < 0.4:
                     c["forces"][i][j] = rng.choice([-1, 1]) * rng.choice([1e-300, 1e-20, 1e-12, 1e-6, 1e100, 1.7e308])
         c.update(mode="real", steps=6 if quick else 20, seed=rng.randint(0, 2 ** 31), keep=True)
+        if k % 3 == 0:
+            # an outside change between two steps: the calculator is exchanged for one with other forces; the next step must follow ITS forces
+            c["swap"] = {"after": rng.randint(0, c["steps"] - 2), "forces": [[rng.choice([-1, 1]) * rng.choice([0.5, 3.0, 40.0]) for _ in range(3)] for _ in range(c["natoms"])]}
         cases.append(c)
     outs = C.run_impl_parallel("c13.py", [{"cases": cases[i::16]} for i in range(16)], timeout=600)
     results = [None] * len(cases)
@@ -425,6 +432,17 @@ def real_runs(res, rng, quick):
             continue
         real_steps += r["steps"]
         D = c["delta"]
+        for s_, gs in enumerate(r.get("gamma_steps") or []):
+            F = c["swap"]["forces"] if c.get("swap") and s_ > c["swap"]["after"] else c["forces"]
+            for co in range(3 * c["natoms"]):
+                d_ = D[co // 3][co % 3] if isinstance(D, list) else D
+                x = fl_(F[co // 3][co % 3]) * d_ / (2 * c["T"] * KB)
+                want = max(-GMAX, min(GMAX, x))
+                got_g = float.fromhex(gs[co])
+                if abs(got_g - want) > 1e-9 * max(1.0, abs(want)):
+                    res.fail("density:force-of-another-configuration", f"step {s_}: coordinate {co} used gamma={got_g!r} but the force acting NOW gives {want!r}"
+                             + (" (the calculator was exchanged after step %d)" % c["swap"]["after"] if c.get("swap") else ""), {"input": c, "step": s_, "coord": co})
+                    break
         mmin = min(c["masses"])
         pw = [float.fromhex(x) for x in r["power"]]
         for s in range(r["steps"]):
